@@ -48,6 +48,13 @@ pub(crate) fn input_matches(mut input: Ref) -> io::Result<bool> {
 		Ref::Reader(r) => match_input_reader(r),
 	};
 	match result {
+		// Running out of input means that the input is not MessagePack (at least
+		// not complete MessagePack), rather than that the source failed.
+		Err(InvalidMarkerRead(err) | InvalidDataRead(err))
+			if err.kind() == io::ErrorKind::UnexpectedEof =>
+		{
+			Ok(false)
+		}
 		Err(InvalidMarkerRead(err) | InvalidDataRead(err)) => Err(err),
 		Err(_) => Ok(false),
 		Ok(()) => Ok(true),
